@@ -63,7 +63,7 @@ var (
 			Set(0x78, "x").Set(0x79, "y").Set(0x7a, "z").Set(0x7b, "{").
 			Set(0x7c, "|").Set(0x7d, "}").Set(0x7e, "~").
 			Set(0xa0, string([]byte{0xC2, 0xA0})).Set(0xa1, "¡").Set(0xa2, "¢").
-			Set(0xa3, "£").Set(0xa4, "$").Set(0xa5, "¥").Set(0xa7, "§").
+			Set(0xa3, "£").Set(0xa4, "$").Set(0xa5, "¥").Set(0xa7, "§").Set(0xa8, "¤").
 			Set(0xa9, "‘").Set(0xaa, "“").Set(0xab, "«").Set(0xac, "←").
 			Set(0xad, "↑").Set(0xae, "→").Set(0xaf, "↓").
 			Set(0xb0, "°").Set(0xb1, "±").Set(0xb2, "²").Set(0xb3, "³").
